@@ -31,7 +31,7 @@ PROP = "C10"
 
 
 def gen_case(rng, tier):
-    mode = rng.choice(["machine", "machine", "machine", "tree", "tree", "stat"])
+    mode = rng.choice(["machine", "machine", "machine", "tree", "tree", "tree_rsmc", "stat"])
     if mode == "machine":
         c = gfi.gen_model_case(rng, tier, depth=rng.choice([0, 1, 1]), max_blocks=2)
         paths = ref.model_paths(c["model"])
@@ -64,6 +64,15 @@ def gen_case(rng, tier):
          "proposal": rng.choice([None, None, "custom"]), "qprobs": stoch(rng, M, K, False),
          "resample_at": [t for t in range(T) if rng.random() < 0.5], "key": rng.randint(0, 2**30),
          "batch": 6000 if tier == "quick" else 20000, "leaf_budget": 600 if tier == "quick" else 6000}
+    if mode == "tree_rsmc":
+        # rejuvenation_smc end-to-end (no kernel): the ESS-triggered resampling is a branch of the schedule
+        c["n"] = rng.choice([1, 2, 2])
+        c["T"] = rng.randint(1, 3)
+        if tier == "thorough" and rng.random() < 0.4:
+            # the ESS trigger (ess < N // 2) can only fire for N >= 4: one observation keeps the tree at 16 * 256 leaves
+            c["n"], c["T"] = 4, 1
+        c["obs"] = [rng.randrange(M) for _ in range(c["T"])]
+        c["proposal"] = rng.choice([None, None, "custom"])
     if mode == "stat":
         c["T"] = 3
         c["obs"] = [rng.randrange(M) for _ in range(3)]
@@ -329,6 +338,53 @@ def run_tree(case, viol, probes):
     return leaves
 
 
+def run_tree_rsmc(case, viol, probes):
+    """rejuvenation_smc end-to-end under complete outcome trees: E[exp(lml)] after the last step and at
+    every step (return_all_particles) equals the evidence, whether or not the ESS trigger resampled."""
+    sig = dict(mode="tree_rsmc", n=case["n"], T=case["T"], proposal=bool(case["proposal"]))
+    ini, trans, emis = hmm_args(case)
+    T = case["T"]
+    obs = {"obs": jnp.asarray(case["obs"])}
+    args0 = (jnp.array(0), jnp.array(0), ini, trans, emis)
+    _, ep = make_proposals(case) if case["proposal"] else (None, None)
+
+    def run():
+        p = rejuvenation_smc(discrete_hmm, ep, None, obs, args0, const(case["n"]), const(True))
+        # per-step particle collections stacked along a leading time axis
+        lw, lme = p.log_weights, p.log_marginal_estimate
+        lml = lme + jax.scipy.special.logsumexp(lw, axis=1) - jnp.log(case["n"])
+        return lml, lw
+
+    acc = np.zeros(T)
+    tot = 0.0
+    leaves = 0
+    resampled = 0
+    for (lml, lw), P, path in otree.explore(lambda s: run_scripted(run, s)[0],
+                                            outcomes=lambda site: otree.discrete_outcomes(site, max_joint=300),
+                                            max_leaves=case["leaf_budget"]):
+        leaves += 1
+        tot += P
+        lml = np.asarray(lml, dtype=np.float64)
+        acc += P * np.where(np.isfinite(lml), np.exp(lml), 0.0)
+        if np.any(np.all(np.asarray(lw) == 0.0, axis=1)) and case["n"] > 1:
+            resampled += 1
+    probes["tree_complete"] = 1
+    probes["tree_leaves"] = leaves
+    probes["ess_resample_taken"] = int(resampled > 0)
+    probes["ess_resample_not_taken"] = int(resampled < leaves)
+    if not world.close(tot, 1.0, 1e-5, 1e-5):
+        viol.append(V("wrong_distribution", "tree_total_probability", f"sum P = {tot}", **sig))
+        return leaves
+    for t in range(T):
+        seqs, joint = hmm_brute(case, t + 1)
+        ev = float(joint.sum())
+        if not world.close(acc[t], ev, 3e-4, 1e-8):
+            viol.append(V("biased_evidence", "expected_exp_lml_is_marginal_likelihood",
+                          f"rejuvenation_smc, after step {t}: sum_scripts P*exp(lml) = {acc[t]} but the marginal likelihood is {ev}", **sig))
+            return leaves
+    return leaves
+
+
 def run_stat(case, viol, probes):
     sig = dict(mode="stat", n=case["n"], rejuv=case.get("rejuv"))
     ini, trans, emis = hmm_args(case)
@@ -369,6 +425,8 @@ def run_case(case):
         elif case["mode"] == "tree":
             probes["proposal_custom" if case["proposal"] else "proposal_default"] = 1
             evals = run_tree(case, viol, probes)
+        elif case["mode"] == "tree_rsmc":
+            evals = run_tree_rsmc(case, viol, probes)
         else:
             evals = run_stat(case, viol, probes)
     except otree.TreeBudget:
